@@ -702,8 +702,8 @@ class Engine:
                 r = self.call(callee, [], argv)
             self.place_slot(fr, dest).set(r)
             return nxt
-        m = re.match(r"^(.*?) = (.*) -> unwind", t)
-        if m:
+        m = re.match(r"^(.*?) = (.*) -> (?:unwind|bb\d+)", t)
+        if m and "[return:" not in t:
             callee, args = parse_call(m.group(2))
             argv = [self.operand(fr, a) for a in split_top(args)] if args.strip() else []
             self.call(callee, [], argv)
